@@ -62,6 +62,9 @@ package constraint
 //@ contract iface ConstraintSystemGeneric.GetCoefficient
 //@   pure
 //@   ensures result == coeffG(recv, i)
+//@ contract iface ConstraintSystemGeneric.AddInternalVariable
+//@   trusted "wire ids are stored as uint32 throughout the constraint system"
+//@   ensures 0 <= result && result < 4294967296
 //@ contract iface ConstraintSystemGeneric.GetInstruction
 //@   pure
 //@ contract iface ConstraintSystemGeneric.GetNbInstructions
